@@ -759,7 +759,7 @@ def canon_impl_db(db, real2model):
         out.append({'values': v,
                     'result': None if result is None else _MD5_RES.get(result, 'unknown:%r' % (result,)),
                     'checker': None if rec['checker:'] is None else CK_CLASS.get(rec['checker:'], rec['checker:']),
-                    'deps': None if deps is None else sorted(_path_index(x) for x in deps),
+                    'deps': None if deps is None else sorted((_path_index(x) for x in deps), key=lambda k: (isinstance(k, str), k)),
                     'fstate': files,
                     'ign': bool(rec['ignore:'])})
     return out
@@ -2090,13 +2090,16 @@ def exhaustive_cases(maxlen, macro_len=None, shared_len=None, utd_len=None):
     return out
 
 
-def expand_corpus(prop):
-    """corpus cases; a case with 'matrix': true runs on every backend x both checkers"""
+def expand_corpus(prop, full=True):
+    """corpus cases; a case with 'matrix': true runs on every backend x both checkers (`full`), or -- quick tier -- on two
+    of the six combinations (both checkers, backends rotating with the position of the seed)"""
     out = []
-    for name, c in common.load_corpus(prop):
+    for idx, (name, c) in enumerate(common.load_corpus(prop)):
         if c.get('matrix'):
-            for b in BACKENDS:
-                for ck in CHECKERS:
+            for bi, b in enumerate(BACKENDS):
+                for ci, ck in enumerate(CHECKERS):
+                    if not full and bi != (idx + ci) % 3:
+                        continue
                     cc = json.loads(json.dumps(c))
                     cc['backend'], cc['checker'] = b, ck
                     cc['scramble'] = 0 if (len(out) % 2) else 4242
@@ -2235,9 +2238,8 @@ def run_property(ctx, prop, n_random, exh_len, macro_len, parallel_share=0.0, n_
     """corpus first, then the small-scope exhaustive tier, then random histories -- in rounds, until everything is
     done or the time budget of the tier is used up (what was left out is written to the evidence)"""
     items = []
-    corpus = expand_corpus(prop)
-    for name, c in corpus:
-        items.append(('corpus', c))
+    full = (ctx.tier != 'quick' or ctx.boost > 1)
+    corpus = expand_corpus(prop, full)
     seeds = [c for _, c in corpus]
     calc = calc_cases(full=(ctx.tier != 'quick' or ctx.boost > 1))
     ctx.extra['calc_dep_scenarios'] = len(calc)
@@ -2247,7 +2249,6 @@ def run_property(ctx, prop, n_random, exh_len, macro_len, parallel_share=0.0, n_
     ctx.extra['group_result_dep_scenarios'] = len(grp)
     for c in grp:
         items.append(('group-scenario', c))
-    full = (ctx.tier != 'quick' or ctx.boost > 1)
     more = cfgdict_cases(full) + dictres_cases(full)
     ctx.extra['config_dict_and_dict_result_scenarios'] = len(more)
     for c in more:
@@ -2256,6 +2257,9 @@ def run_property(ctx, prop, n_random, exh_len, macro_len, parallel_share=0.0, n_
     ctx.extra['odd_files_and_time_item_scenarios'] = len(odd)
     for c in odd:
         items.append((c['kind'] + '-scenario', c))
+    # the scripted scenario families are few and cheap: they run before the (larger) corpus
+    for name, c in corpus:
+        items.append(('corpus', c))
     ex = exhaustive_cases(exh_len, macro_len, shared_len, utd_len)
     ex.sort(key=lambda c: len(c['word'].split(':')[-1]))
     ctx.extra['exhaustive_small_scope'] = {
